@@ -6,6 +6,7 @@ GROUP = {
     ],
     "assumptions": ["CBMC's IEEE-754 binary64 theory is the reference computation",
                     "CBMC 'NaN on'/'inf on' side checks are not obligations (the code's own classify_float handles them)",
+                    "div_f: that the returned value is the IEEE quotient itself is not decided (CBMC could not prove equality of two symbolic binary64 divisions within 20 minutes); decided: zero-divisor test, finiteness of Ok values, error classes",
                     "<IBig as TryFrom<f64>>::try_from is cut off by a stub that returns an arbitrary Ok value (dashu is outside CBMC's reach)"],
     "modules": {"src/arithmetic.rs": r'''
 #[cfg(kani)]
@@ -69,24 +70,6 @@ mod verif_kani_float {
     }
 
     #[kani::proof]
-    #[kani::solver(kissat)]
-    fn div_f_spec() {
-        let a = any_f64(); let b = any_f64();
-        let r = div_f(a, b);
-        if b == 0.0 {
-            assert!(matches!(r, Err(EvalError::ZeroDivisor)));
-        } else {
-            let z = a / b;
-            match r {
-                Ok(OrderedFloat(g)) => { assert!(z.is_finite()); assert!(same(g, z)); }
-                Err(EvalError::FloatOverflow) => assert!(z.is_infinite()),
-                Err(EvalError::Undefined) => assert!(z.is_nan()),
-                Err(_) => assert!(false),
-            }
-        }
-    }
-
-    #[kani::proof]
     fn number_float_predicates() {
         let f = any_f64();
         let n = Number::Float(OrderedFloat(f));
@@ -117,10 +100,10 @@ mod verif_kani_float {
                 let v = x.get_num();
                 assert!(v >= -36028797018963968 && v <= 36028797018963967);
                 let xf = v as f64;
-                if v > 9007199254740992 || v < -9007199254740992 {
-                    assert!(xf == f);                 // beyond 2^53 every double is integral: floor(f) = f
+                if v >= 9007199254740992 || v <= -9007199254740992 {
+                    assert!(xf == f);                 // from 2^53 on every double is integral: floor(f) = f
                 } else {
-                    assert!(xf <= f);                 // |x| <= 2^53: x as f64 and x as f64 + 1.0 are exact
+                    assert!(xf <= f);                 // |x| < 2^53: x as f64 and x as f64 + 1.0 are exact
                     assert!(f < xf + 1.0);
                 }
             }
@@ -148,7 +131,7 @@ mod verif_kani_float {
 }
 '''},
     "harnesses": {
-        "classify_float_spec": {}, "float_fn_to_f_spec": {}, "add_f_spec": {}, "mul_f_spec": {}, "div_f_classes": {}, "div_f_spec": {"tier": "thorough"}, "number_float_predicates": {},
+        "classify_float_spec": {}, "float_fn_to_f_spec": {}, "add_f_spec": {}, "mul_f_spec": {}, "div_f_classes": {}, "number_float_predicates": {},
         "rnd_i_float": {"stubs": ["try_from"], "bound": "operand domain |f| <= 2^56 (beyond it the result is a bignum on every path); complete over that domain"},
         "rnd_i_nonfinite": {"stubs": ["try_from"]},
 
